@@ -435,6 +435,14 @@ def c14(ctx):
 @prop('C09', level='other', title='values cross the Go/C boundary intact')
 def c09(ctx):
     """(a) C-string / C-buffer helpers of the runtime on arbitrary strings and
-    arbitrary previous buffer contents."""
+    arbitrary previous buffer contents.  (b) struct shapes crossing the boundary
+    in four directions: llgo's IR (after its C-ABI transformation) and the host C
+    compiler's IR of the other side executed together on symbolic field values."""
     q = ctx.quick
-    return [rt_job(ctx, 'cstr', [H(ctx, 'C09', 'cstr_h.go')], unwind=16, deadline_s=300 if q else 1200)]
+    C = _check()
+    import subprocess
+
+    def gen(d):
+        subprocess.check_call(['python3', H(ctx, 'C09', 'gen_abi.py'), d, ctx.tier], stdout=subprocess.DEVNULL)
+    abi = C.CabiJob('abi', gen, 'tvc09abi', 'c/wrap.c', chunks=16, deadline_s=120, prefix='C09.abi.')
+    return [rt_job(ctx, 'cstr', [H(ctx, 'C09', 'cstr_h.go')], unwind=16, deadline_s=300 if q else 1200), abi]
